@@ -19,6 +19,7 @@ theorem expItem_line (st : PState) (it : Item) : (expItem st it).line = st.line 
   | entry e =>
     simp only [expItem, conts_line, Item.lines, List.length_cons, List.length_map, storeNew]
     omega
+  | keyonly ind key trail tc => rfl
 
 theorem expDoc_line (doc : List Item) (st : PState) : (doc.foldl expItem st).line = st.line + (renderLines doc).length := by
   induction doc generalizing st with
@@ -40,6 +41,8 @@ def entryOf (st : PState) (e : EntryI) : Entry :=
 /-- the entries an item adds -/
 def Item.adds (st : PState) : Item → List Entry
   | .entry e => [entryOf st e]
+  | .keyonly _ key _ tc =>
+    [{ group := st.curGroup.getD NONE, key := key, value := none, cb := st.cb, ca := caWith st.ca tc, line := st.line + 1, quotes := false }]
   | _ => []
 
 /-- entries are only ever appended: earlier entries are never touched by later items -/
@@ -50,6 +53,7 @@ theorem expItem_entries (cfg : Cfg) (st : PState) (it : Item) (h : it.WF cfg) :
   | comment ind c text => simp [expItem, Item.adds]
   | sect ind name trail tc => simp [expItem, Item.adds]
   | entry e => rw [C02_entry_item cfg st e h.1]; rfl
+  | keyonly ind key trail tc => rw [C02_keyonly_item cfg st ind key trail tc h]; rfl
 
 theorem expDoc_entries_prefix (cfg : Cfg) (doc : List Item) (st : PState) (h : ∀ it ∈ doc, it.WF cfg) :
     ∃ more, (doc.foldl expItem st).entries = st.entries ++ more := by
@@ -81,17 +85,20 @@ theorem sameContent_item (cfg : Cfg) (s1 s2 : PState) (it : Item) (hit : it.WF c
     congr 1
     cases it with
     | entry e => simp [Item.adds, entryOf, Entry.core, hc]
+    | keyonly ind key trail tc => simp [Item.adds, Entry.core, hc]
     | _ => rfl
   · cases it with
     | blank ws => exact hg
     | comment ind c text => exact hg
     | sect ind name trail tc => simp only [expItem, hg]
     | entry e => rw [C02_entry_item cfg s1 e hit.1, C02_entry_item cfg s2 e hit.1]; simp only [hg, hc]
+    | keyonly ind key trail tc => rw [C02_keyonly_item cfg s1 ind key trail tc hit, C02_keyonly_item cfg s2 ind key trail tc hit]; simp only [hg, hc]
   · cases it with
     | blank ws => exact hc
     | comment ind c text => exact hc
     | sect ind name trail tc => rfl
     | entry e => rw [C02_entry_item cfg s1 e hit.1, C02_entry_item cfg s2 e hit.1]; exact hc
+    | keyonly ind key trail tc => rw [C02_keyonly_item cfg s1 ind key trail tc hit, C02_keyonly_item cfg s2 ind key trail tc hit]; exact hc
 
 theorem sameContent_doc (cfg : Cfg) (doc : List Item) (s1 s2 : PState) (hd : ∀ it ∈ doc, it.WF cfg) (h : SameContent s1 s2) :
     SameContent (doc.foldl expItem s1) (doc.foldl expItem s2) := by
@@ -112,6 +119,7 @@ theorem sameContent_inert (st : PState) (it : Item) (h : it.inert = true) : Same
   | comment ind c text => exact ⟨rfl, rfl, rfl⟩
   | sect ind name trail tc => cases h
   | entry e => cases h
+  | keyonly _ _ _ _ => cases h
 
 theorem sameContent_inert_block (st : PState) (block : List Item) (h : ∀ it ∈ block, it.inert = true) :
     SameContent (block.foldl expItem st) st := by
